@@ -72,6 +72,9 @@ def doc_hook(I, p, fr, t, args):
             src = I.deref(args[1]) if len(args) > 1 else None
             items = src.items if isinstance(src, Vec) else None
             if items is None:
+                from .interp import Iter
+                if isinstance(src, Iter) and src.sym is not None:
+                    return Doc([("sym", repr(src.sym))])
                 return Doc([("sym", "list(%r)" % (src,))])
             sep = to_doc(I, args[2]) if n == "intersperse" and len(args) > 2 else Doc([])
             d = Doc([])
